@@ -116,6 +116,8 @@ def decEntryVal (kind : String) (s : String) : Option (Entry (Option Nat) Val) :
   | ['B'] => some (.raw none)
   | 'P' :: d => (String.ofList d).toNat?.map (fun n => .parsed (n, !isBinary kind))
   | 'R' :: d => (String.ofList d).toNat?.map (fun n => .raw (some n))
+  -- the same element in another text layout: indistinguishable for the model (that is the property)
+  | 'Q' :: d => (String.ofList d).toNat?.map (fun n => .raw (some n))
   | _ => none
 
 def decEntries (kind : String) (s : String) : Option (Store String (Option Nat) Val) :=
@@ -140,30 +142,39 @@ def isBad (e : Entry (Option Nat) Val) : Bool := match e with | .raw none => tru
 def toRaw (e : Entry (Option Nat) Val) : Entry (Option Nat) Val :=
   match e with | .parsed v => .raw (some v.1) | r => r
 
+/-- `BinaryCIFBlock` stores category `name` under `"_" + name`. -/
+def encK (kind : String) (k : String) : String := if kind == "bblock" then "_" ++ k else k
+/-- `key.removeprefix("_")` on iteration (only `BinaryCIFBlock`). -/
+def decK (kind : String) (k : String) : String :=
+  if kind == "bblock" then (if k.startsWith "_" then String.ofList (k.toList.drop 1) else k) else k
+
+def encStore (kind : String) (st : Store String (Option Nat) Val) : Store String (Option Nat) Val :=
+  st.map (fun e => (encK kind e.1, e.2))
+
 def cstep (s : CState) (w : List String) : CState × String :=
   match kindOf s.kind, w with
   | _, ["cnew", k, es] =>
     match kindOf k, decEntries k es with
-    | some _, some st => ({ kind := k, store := st }, "ok")
+    | some _, some st => ({ kind := k, store := encStore k st }, "ok")
     | _, _ => (s, "bad-op")
-  | some kind, ["cget", k] => let r := step kind parseId s.store (.get k); ({ s with store := r.1 }, showOut r.2)
+  | some kind, ["cget", k] => let r := stepP (encK s.kind) (decK s.kind) kind parseId s.store (.get k); ({ s with store := r.1 }, showOut r.2)
   | some kind, ["cset", k, v] =>
     match v.toNat? with
-    | some v => let r := step kind parseId s.store (.set k (v, !isBinary s.kind)); ({ s with store := r.1 }, showOut r.2)
+    | some v => let r := stepP (encK s.kind) (decK s.kind) kind parseId s.store (.set k (v, !isBinary s.kind)); ({ s with store := r.1 }, showOut r.2)
     | none => (s, "bad-op")
   | some kind, ["csetraw", k, v] =>
     if s.kind == "tcat" then (s, "unmodelled") else
     match decEntryVal s.kind v with
-    | some (.raw r) => let r := step kind parseId s.store (.setRaw k r); ({ s with store := r.1 }, showOut r.2)
+    | some (.raw r) => let r := stepP (encK s.kind) (decK s.kind) kind parseId s.store (.setRaw k r); ({ s with store := r.1 }, showOut r.2)
     | _ => (s, "bad-op")
-  | some kind, ["cdel", k] => let r := step kind parseId s.store (.del k); ({ s with store := r.1 }, showOut r.2)
-  | some kind, ["chas", k] => let r := step kind parseId s.store (.has k); ({ s with store := r.1 }, showOut r.2)
-  | some kind, ["citer"] => let r := step kind parseId s.store .iter; ({ s with store := r.1 }, showOut r.2)
-  | some kind, ["clen"] => let r := step kind parseId s.store .len; ({ s with store := r.1 }, showOut r.2)
+  | some kind, ["cdel", k] => let r := stepP (encK s.kind) (decK s.kind) kind parseId s.store (.del k); ({ s with store := r.1 }, showOut r.2)
+  | some kind, ["chas", k] => let r := stepP (encK s.kind) (decK s.kind) kind parseId s.store (.has k); ({ s with store := r.1 }, showOut r.2)
+  | some kind, ["citer"] => let r := stepP (encK s.kind) (decK s.kind) kind parseId s.store .iter; ({ s with store := r.1 }, showOut r.2)
+  | some kind, ["clen"] => let r := stepP (encK s.kind) (decK s.kind) kind parseId s.store .len; ({ s with store := r.1 }, showOut r.2)
   | some _, ["ceq", es] =>
     match decEntries s.kind es with
     | some other =>
-      let r := eqContainers parseId s.store other
+      let r := eqContainers parseId s.store (encStore s.kind other)
       ({ s with store := r.1 }, match r.2.2 with | .ok b => (if b then "ok True" else "ok False") | .error e => showErr e)
     | none => (s, "bad-op")
   | some _, ["creparse"] =>
@@ -191,8 +202,33 @@ def rcDo (s : CState) (op : RCOp String) : CState × String :=
   let r := rcStep s.rcBinary s.rc op
   ({ s with rc := r.1 }, showRc r.2)
 
+/-- parse a file text all the way down -/
+def deepParse (text : Str) : Option (List (Str × List (Option Str × List (Str × List Str)))) :=
+  (fileDeserialize text).mapM (fun b =>
+    match blockDeserialize b.2 with
+    | .error _ => none
+    | .ok cats =>
+      (cats.mapM (fun (c : Option Str × Str) => match categoryDeserialize c.2 with
+        | .ok r => some (c.1, r.2)
+        | .error _ => none)).map (fun cs => (b.1, cs)))
+
+def eqAssoc {κ α : Type} [BEq κ] (eqv : α → α → Bool) (a b : List (κ × α)) : Bool :=
+  sameKeySet (a.map (·.1)) (b.map (·.1)) &&
+  a.all (fun kv => match lookup kv.1 b with | some v => eqv kv.2 v | none => false)
+
+/-- `CIFFile.__eq__` as a comparison of plain mappings (File ⊃ Block ⊃ Category ⊃ column strings). -/
+def deepEq (a b : List (Str × List (Option Str × List (Str × List Str)))) : Bool :=
+  eqAssoc (eqAssoc (eqAssoc (fun (x y : List Str) => x == y))) a b
+
 def step' (s : CState) (line : String) : CState × String :=
   match words line with
+  | ["eqfiles", ta, tb] =>
+    match decStr ta, decStr tb with
+    | some ta, some tb =>
+      match deepParse ta, deepParse tb with
+      | some a, some b => (s, if deepEq a b then "ok True" else "ok False")
+      | _, _ => (s, "ERR")
+    | _, _ => (s, "bad-op")
   | ["rcnew", k, cols] =>
     match decLens cols with
     | some cs => ({ s with rcBinary := k == "b", rc := ⟨cs, none⟩ }, "ok")
